@@ -203,7 +203,7 @@ class Unit:
         return None
 
     # ------------------------------------------------------------ C generation
-    def closure(self, roots, stop):
+    def closure(self, roots, stop, follow_roots=True):
         """functions reachable from roots; calls into `stop` functions are not followed"""
         seen, order = set(), []
         stack = list(roots)
@@ -216,7 +216,7 @@ class Unit:
             if f is None:
                 continue
             order.append(n)
-            if n in stop and n not in roots:
+            if n in stop and (n not in roots or not follow_roots):
                 continue
             for c in f.calls:
                 if c not in seen:
@@ -417,7 +417,7 @@ class Unit:
             roots = [target]
             direct = None
         stop = set(n for n in contract_fns if n not in spec.inline and n != target)
-        order = self.closure(roots, stop)
+        order = self.closure(roots, stop, follow_roots=not is_lemma)
         # which contract-bearing functions are actually called (replaced)
         replaced = []
         for n in order:
